@@ -188,6 +188,7 @@ theorem SerialInv.exec {sys : Sys} (h : SerialInv sys) (a : Action) (hf : a.fres
         (fun u hl _ => hl.touchRes h.base.store g k n l)
   | stepW n o c => simp [Action.fresh] at hf
   | xaRaw n c => simp [Action.fresh] at hf
+  | ef n0 => simp [Action.fresh] at hf
   | start n =>
     refine ⟨hbase, ?_, ?_, ?_⟩
     · simp only [Sys.exec]
